@@ -12,6 +12,7 @@ mod paths;
 mod merkle;
 mod roundtrip;
 mod dedup;
+mod ff;
 mod alloc_watch;
 
 #[global_allocator]
@@ -92,6 +93,7 @@ fn main() {
                     "curry_ground" => t_tree_hash::replay_curry(&v["input"]),
                     "dedup_ground" => dedup::replay_dedup(&v["input"]),
                     "alloc_ground" => alloc_watch::replay_alloc(&v["input"]),
+                    "ff_ground" => ff::replay_ff(&v["input"]),
                     "bls_cache_ground" => eval::replay_bls(&v["input"]),
                     "tree_hash_precomputed" => eval::replay_precomputed(&v["input"]),
                     _ => (false, "unknown eval replay".to_string()),
